@@ -1,7 +1,7 @@
 (** C12 -- reducing named dimensions equals the axis reduction, in memory and on file. *)
 From Coq Require Import List Arith Lia Bool ZArith.
 Require Import V.Base.ListAux V.Base.Radix V.Base.Matrix V.Base.NdArray V.Usid.SortOrder V.Usid.ToND V.Usid.ToNDProof V.Usid.FromND
-               V.Usid.Grid V.Usid.SelEnum V.Usid.Reduce V.Usid.ReduceProof V.Usid.ReduceGrid V.Usid.ReduceFile.
+               V.Usid.Grid V.Usid.SelEnum V.Usid.Reduce V.Usid.ReduceProof V.Usid.ReduceGrid V.Usid.ReduceFile V.Usid.ReduceSqueezed.
 Import ListNotations.
 
 (** The value at a kept index is the reduction of exactly the elements of the fibre over it ... *)
@@ -125,6 +125,67 @@ Theorem C12_written_back_coordinates :
                (pos_row (transpose2d 0 (grid_spec szp' sop')) (length szp') r ++ spec_col (grid_spec szs' sos') (length szs') c).
 Proof. intros. apply reduce_file_coordinates; assumption. Qed.
 Print Assumptions C12_written_back_coordinates.
+
+(** The same when EVERY position dimension is reduced (at least two spectroscopic dimensions left): the Position side becomes the
+    1 x 1 placeholder labelled with the next free dimension number, reshape_from_n_dims takes its squeezed path, and column c of the
+    single row is the reduced value at the coordinates carried by column c of the NEW spectroscopic matrix. *)
+Theorem C12_all_position_dimensions_reduced :
+  forall (szp sop szs sos : list nat) (main : list (list Z)) (pos : list (list nat)) (dims : list nat) (f : redfn),
+  wf_grid szp sop -> wf_grid szs sos ->
+  length szp <= prod (radices szp sop) -> length szs <= prod (radices szs sos) -> 0 < length szp -> 0 < length szs ->
+  length main = prod (radices szp sop) -> rect main (prod (radices szs sos)) ->
+  transpose2d 0 pos = grid_spec szp sop -> ncols pos = length szp ->
+  Forall (fun dm => dm < length szp + length szs) dims ->
+  let kp := length szp in
+  let pred := filter (fun dm => Nat.ltb dm kp) dims in
+  let sred := map (fun dm => dm - kp) (filter (fun dm => negb (Nat.ltb dm kp)) dims) in
+  let szs' := red_sz szs sred in let sos' := red_so szs sos sred in
+  kept (length szp) pred = [] -> kept (length szs) sred <> [] ->
+  length szs' <= prod (radices szs' sos') -> 2 <= length szs' ->
+  let M' := prod (radices szs' sos') in
+  exists a data sside,
+    to_nd 0%Z main pos (grid_spec szs sos) false = Ok (a, seq 0 (length szp + length szs)) /\ nd_shape a = szp ++ szs /\
+    reduce_mem main pos (grid_spec szs sos) dims f = Ok (nd_reduce 0%Z (apply_fn f) a dims) /\
+    reduce_file main pos (grid_spec szs sos) dims f = Ok (1, M', data, RWritten [kp] [[0]], sside) /\ length data = M' /\
+    forall c, c < M' ->
+      nth c data 0%Z = nd_get 0%Z (nd_reduce 0%Z (apply_fn f) a dims) (spec_col (grid_spec szs' sos') (length szs') c).
+Proof. intros szp sop szs sos. intros. apply (reduce_file_all_positions szp sop szs sos); assumption. Qed.
+Print Assumptions C12_all_position_dimensions_reduced.
+
+(** ... and when EVERY spectroscopic dimension is reduced (at least two position dimensions left). *)
+Theorem C12_all_spectroscopic_dimensions_reduced :
+  forall (szp sop szs sos : list nat) (main : list (list Z)) (pos : list (list nat)) (dims : list nat) (f : redfn),
+  wf_grid szp sop -> wf_grid szs sos ->
+  length szp <= prod (radices szp sop) -> length szs <= prod (radices szs sos) -> 0 < length szp -> 0 < length szs ->
+  length main = prod (radices szp sop) -> rect main (prod (radices szs sos)) ->
+  transpose2d 0 pos = grid_spec szp sop -> ncols pos = length szp ->
+  Forall (fun dm => dm < length szp + length szs) dims ->
+  let kp := length szp in
+  let pred := filter (fun dm => Nat.ltb dm kp) dims in
+  let sred := map (fun dm => dm - kp) (filter (fun dm => negb (Nat.ltb dm kp)) dims) in
+  let szp' := red_sz szp pred in let sop' := red_so szp sop pred in
+  kept (length szp) pred <> [] -> kept (length szs) sred = [] ->
+  length szp' <= prod (radices szp' sop') -> 2 <= length szp' ->
+  let N' := prod (radices szp' sop') in
+  exists a data pside,
+    to_nd 0%Z main pos (grid_spec szs sos) false = Ok (a, seq 0 (length szp + length szs)) /\ nd_shape a = szp ++ szs /\
+    reduce_mem main pos (grid_spec szs sos) dims f = Ok (nd_reduce 0%Z (apply_fn f) a dims) /\
+    reduce_file main pos (grid_spec szs sos) dims f = Ok (N', 1, data, pside, RWritten [kp + length szs] [[0]]) /\ length data = N' /\
+    forall r, r < N' ->
+      nth r data 0%Z = nd_get 0%Z (nd_reduce 0%Z (apply_fn f) a dims) (pos_row (transpose2d 0 (grid_spec szp' sop')) (length szp') r).
+Proof. intros szp sop szs sos. intros. apply (reduce_file_all_spectroscopic szp sop szs sos); assumption. Qed.
+Print Assumptions C12_all_spectroscopic_dimensions_reduced.
+
+(** non-vacuity of the two theorems: 2 x 2 positions x (2 x 3) spectra *)
+Example C12_example_all_positions :
+  let main := [[0; 1; 2; 3; 4; 5]; [6; 7; 8; 9; 10; 11]; [12; 13; 14; 15; 16; 17]; [18; 19; 20; 21; 22; 23]]%Z in
+  let pos := [[0; 0]; [1; 0]; [0; 1]; [1; 1]] in
+  let spec := grid_spec [2; 3] [0; 1] in
+  transpose2d 0 pos = grid_spec [2; 2] [0; 1] /\
+  reduce_file main pos spec [0; 1] RSum = Ok (1, 6, [36; 40; 44; 48; 52; 56]%Z, RWritten [2] [[0]], RReused) /\
+  reduce_file main pos spec [2; 3] RSum = Ok (4, 1, [15; 51; 87; 123]%Z, RReused, RWritten [4] [[0]]) /\
+  kept 2 (filter (fun dm => Nat.ltb dm 2) [0; 1]) = [] /\ kept 2 (map (fun dm => dm - 2) (filter (fun dm => negb (Nat.ltb dm 2)) [0; 1])) <> [].
+Proof. cbv zeta. repeat split; try (vm_compute; reflexivity). vm_compute. discriminate. Qed.
 
 (** With fewer than two axes left the call raises rather than writing a dataset that is not a Main dataset. *)
 Theorem C12_raises_when_fewer_than_two_axes_remain :
